@@ -98,3 +98,41 @@ fn c06_id_alloc_mustfail() {
     let id = a.alloc();
     assert!(live(&words, n, id & 0x00FF_FFFF));
 }
+
+// ------------------------------------------------------------------------------------------ C12: covering keys
+
+/// The octet-level key of the /len prefix covering an IPv4 address (RpkiTable::covering_key) is the address with its
+/// low 32-len bits cleared, followed by len — for every address and every len 0..=32 (loop of 4 iterations: complete).
+#[kani::proof]
+#[kani::unwind(6)]
+fn c12_covering_key_v4() {
+    let a: u32 = kani::any();
+    let len: u8 = kani::any();
+    kani::assume(len <= 32);
+    let key = RpkiTable::covering_key(&a.to_be_bytes(), len);
+    assert!(key.len() == 5 && key[4] == len, "C12.covering_key_ends_with_length");
+    let got = u32::from_be_bytes([key[0], key[1], key[2], key[3]]);
+    let want = if len == 0 { 0 } else { (a >> (32 - len as u32)) << (32 - len as u32) };
+    assert!(got == want, "C12.covering_key_is_the_address_with_host_bits_cleared");
+    kani::cover!(len % 8 != 0, "length inside an octet");
+    core::mem::forget(key);
+}
+
+/// IPv6 counterpart (16 iterations): complete.
+#[kani::proof]
+#[kani::unwind(18)]
+fn c12_covering_key_v6() {
+    let a: u128 = kani::any();
+    let len: u8 = kani::any();
+    kani::assume(len <= 128);
+    let key = RpkiTable::covering_key(&a.to_be_bytes(), len);
+    assert!(key.len() == 17 && key[16] == len, "C12.covering_key_ends_with_length");
+    let mut b = [0u8; 16];
+    let mut i = 0;
+    while i < 16 { b[i] = key[i]; i += 1; }
+    let got = u128::from_be_bytes(b);
+    let want = if len == 0 { 0 } else { (a >> (128 - len as u32)) << (128 - len as u32) };
+    assert!(got == want, "C12.covering_key_is_the_address_with_host_bits_cleared");
+    kani::cover!(len % 8 != 0, "length inside an octet");
+    core::mem::forget(key);
+}
